@@ -5,14 +5,16 @@
 (* by a version that forgets an invalidation: those configurations MUST      *)
 (* violate an invariant (the model is not vacuous).                          *)
 EXTENDS Scatter
-CONSTANTS MaxOps, MaxNp, MaxNd, Bug
+CONSTANTS MaxOps, MaxNp, MaxNd, Bug, ZoomAuto
 VARIABLES s, n, last, lastErr, readOK
 
 vars == << s, n, last, lastErr, readOK >>
+\* (automatic down-sampling settings are the class default; ZoomAuto selects them)
+InitObj0 == [InitObj EXCEPT !.zoomAuto = ZoomAuto]
 \* two initial states: a new object, and an object on which every input was set once (so that
 \* MaxOps calls reach set_up / compute / change / set_up / compute histories)
-Configured == [InitObj EXCEPT !.act = 1, !.att = 1, !.tmpl = 1, !.energy = 1, !.nd = MaxNd, !.geo = 1, !.out = 1]
-Init == s \in {InitObj, Configured} /\ n = 0 /\ last = "New" /\ lastErr = FALSE /\ readOK = TRUE
+Configured == [InitObj0 EXCEPT !.act = 1, !.att = 1, !.tmpl = 1, !.energy = 1, !.nd = MaxNd, !.geo = 1, !.out = 1]
+Init == s \in {InitObj0, Configured} /\ n = 0 /\ last = "New" /\ lastErr = FALSE /\ readOK = TRUE
 
 \* (every action is written out so that TLC's coverage names it)
 SetAct == /\ n < MaxOps /\ n' = n + 1 /\ last' = "SetAct" /\ lastErr' = FALSE /\ UNCHANGED readOK
@@ -31,11 +33,25 @@ SetCache == /\ n < MaxOps /\ n' = n + 1 /\ lastErr' = FALSE /\ UNCHANGED readOK
             /\ \E b \in BOOLEAN :
                  /\ last' = IF b = s.useCache THEN "SetCacheSame" ELSE "SetCache"
                  /\ s' = IF Bug = "toggle" THEN [s EXCEPT !.useCache = b] ELSE SetCacheOp(s, b)
+SetThr == /\ n < MaxOps /\ n' = n + 1 /\ last' = "SetThr" /\ lastErr' = FALSE /\ UNCHANGED readOK
+          /\ s' = SetThrOp(s)
+SetRnd == /\ n < MaxOps /\ n' = n + 1 /\ last' = "SetRnd" /\ lastErr' = FALSE /\ UNCHANGED readOK
+          /\ \E b \in BOOLEAN : s' = SetRndOp(s, b)
+SetZoom == /\ n < MaxOps /\ n' = n + 1 /\ last' = "SetZoom" /\ lastErr' = FALSE /\ UNCHANGED readOK
+           /\ s' = SetZoomOp(s)
+DsScanner == /\ n < MaxOps /\ n' = n + 1 /\ last' = "SetTmpl" /\ lastErr' = FALSE /\ UNCHANGED readOK
+             /\ s.tmpl > 0 /\ \E d \in 1..MaxNd : s' = DownsampleScannerOp(s, d, s.tmpl + 1)
+DsImages == /\ n < MaxOps /\ n' = n + 1 /\ last' = (IF s.act = 0 /\ s.att = 0 THEN "DsImagesNone" ELSE "DsImages")
+            /\ lastErr' = DownsampleImagesErr(s) /\ UNCHANGED readOK
+            /\ s' = DownsampleImagesOp(s)
 SetOut == /\ n < MaxOps /\ n' = n + 1 /\ last' = "SetOut" /\ lastErr' = FALSE /\ UNCHANGED readOK
           /\ s.tmpl > 0 /\ s' = SetOutOp(s)
 SetUp == /\ n < MaxOps /\ n' = n + 1 /\ last' = "SetUp" /\ lastErr' = SetUpErr(s) /\ UNCHANGED readOK
          /\ \E k \in 1..MaxNp :
-              s' = IF Bug = "effkeep" /\ ~SetUpErr(s) THEN [SetUpOp(s, k) EXCEPT !.eff = s.eff] ELSE SetUpOp(s, k)
+              s' = IF Bug = "effkeep" /\ ~SetUpErr(s) THEN [SetUpOp(s, k) EXCEPT !.eff = s.eff]
+                   \* set_up as the code does it: derives only if there is no image, never re-samples
+                   ELSE IF Bug = "codesetup" THEN SetUpCodeOp(s, k)
+                   ELSE SetUpOp(s, k)
 Compute == \E R \in (SUBSET Entries(s)) \ { {} } :
              /\ n < MaxOps /\ n' = n + 1 /\ last' = "Compute" /\ lastErr' = ComputeErr(s)
              /\ s' = ComputeOp(s, R, R)
@@ -45,9 +61,10 @@ ComputeNone == /\ Entries(s) = {} /\ n < MaxOps /\ n' = n + 1 /\ last' = "Comput
                /\ s' = ComputeOp(s, {}, {}) /\ readOK' = IF ComputeErr(s) THEN readOK ELSE ReadsValid(s, {}, {})
 
 Next == SetAct \/ SetAtt \/ SetSp \/ Downsample \/ SetTmpl \/ SetEnergy \/ SetCache \/ SetOut \/ SetUp \/ Compute \/ ComputeNone
+        \/ SetThr \/ SetRnd \/ SetZoom \/ DsScanner \/ DsImages
 Spec == Init /\ [][Next]_vars
 
-ChangingSetters == {"SetAct", "SetAtt", "SetSp", "SetTmpl", "SetEnergy", "SetCache"}
+ChangingSetters == {"SetAct", "SetAtt", "SetSp", "SetTmpl", "SetEnergy", "SetCache", "SetThr", "SetRnd", "SetZoom", "DsImages"}
 \* "every Compute after SetUp reads only valid cache entries" (hence result = fresh object's)
 InvValid == s.asu => AllValid(s)
 InvReads == readOK
